@@ -27,11 +27,11 @@ type vlEntry struct {
 	PatA, PatB int // Val is the pattern byte i = PatA + i*PatB (large values)
 	Pat        bool
 	Key        []byte
-	Ver   uint64
-	Val   []byte
-	Meta  byte
-	UMeta byte
-	Exp   uint64
+	Ver        uint64
+	Val        []byte
+	Meta       byte
+	UMeta      byte
+	Exp        uint64
 }
 
 func (e vlEntry) term() string {
